@@ -9,7 +9,7 @@ use tokio::{io::AsyncReadExt, net::TcpListener};
 use tokio_tungstenite::tungstenite::Message;
 
 use crate::{
-    corpus::{mode_name, real_encode, Corpus, Enc, MODES},
+    corpus::{mode_name, real_decode, real_encode, Corpus, Dec, Enc, MODES},
     ctx::{hex, Ctx, Part, Tier},
     refspec::{limit, GenOpts, TextMode},
     rng::Rng,
@@ -489,7 +489,7 @@ pub fn run_backpressure_keepalive(compressed: bool, cancel_after_ms: u64, p: &mu
             }
         }
         if !stalled {
-            return Err("the send path never filled up (no back-pressure reached)".to_string());
+            return Err("NO-BACKPRESSURE".to_string());
         }
         let _ = stalled_tx.send(());
         // the read that decodes the keep-alive and queues the reply; cancelled while the reply cannot be flushed
@@ -509,6 +509,11 @@ pub fn run_backpressure_keepalive(compressed: bool, cancel_after_ms: u64, p: &mu
         let server_got = tokio::time::timeout(WATCHDOG, server).await.map_err(|_| "server watchdog".to_string())?.map_err(|e| e.to_string())?;
         Ok(Out { flood, first_read_cancelled, second_read, server_got })
     });
+    if matches!(&out, Err(e) if e == "NO-BACKPRESSURE") {
+        // the socket buffers of this machine swallowed 400 000 writes: the scenario cannot be set up here (counted, not judged)
+        p.count("bp_not_reached", 1);
+        return Ok(());
+    }
     let o = out.map_err(|e| format!("{label}: {e}"))?;
     p.evaluations += 1;
     p.distinct(&label);
@@ -536,7 +541,20 @@ pub fn run_backpressure_cancelled_writes(compressed: bool, extra_cancelled: usiz
     use tokio::net::TcpSocket;
     let rt = tokio::runtime::Builder::new_current_thread().enable_all().build().map_err(|e| e.to_string())?;
     let label = format!("backpressure-cancelled-writes-{}-{extra_cancelled}", mode_name(compressed));
-    let packet = |i: usize| -> Packet { Packet::Msl(Msl { reqi: RequestId(1 + (i % 250) as u8), msg: format!("{i:07} {}", "x".repeat(40 + (i * 7) % 80)), ..Default::default() }) };
+    // near-maximum frames, each unique: IS_PLH with 250 (compressed, 1004 bytes) or 62 (uncompressed, 252 bytes) entries.
+    // Big frames matter: tungstenite applies its own back-pressure only once ~128 KiB are queued inside it.
+    let packet = |i: usize| -> Packet {
+        let n = if compressed { 250usize } else { 62 };
+        let mut f = vec![0u8, 66, 1 + (i % 250) as u8, n as u8];
+        for k in 0..n {
+            f.extend_from_slice(&[(i / 250 + k) as u8, 3, (i % 200) as u8, (k % 50) as u8]);
+        }
+        f[0] = if compressed { (f.len() / 4) as u8 } else { f.len() as u8 };
+        match real_decode(&f, compressed) {
+            Dec::Packet(q, _) => q,
+            _ => Packet::Msl(Msl { reqi: RequestId(1 + (i % 250) as u8), msg: format!("{i:07} fallback"), ..Default::default() }),
+        }
+    };
     struct Out {
         frames: Vec<Vec<u8>>,
         completed: Vec<bool>,
@@ -597,7 +615,7 @@ pub fn run_backpressure_cancelled_writes(compressed: bool, extra_cancelled: usiz
             i += 1;
         }
         if cancelled == 0 {
-            return Err("the send path never filled up (no back-pressure reached)".to_string());
+            return Err("NO-BACKPRESSURE".to_string());
         }
         // phase 2: the peer reads again; a few more writes, all awaited
         let _ = drain_tx.send(());
@@ -615,6 +633,10 @@ pub fn run_backpressure_cancelled_writes(compressed: bool, extra_cancelled: usiz
         let server_got = tokio::time::timeout(WATCHDOG, server).await.map_err(|_| "server watchdog".to_string())?.map_err(|e| e.to_string())?;
         Ok(Out { frames, completed, cancelled, server_got })
     });
+    if matches!(&out, Err(e) if e == "NO-BACKPRESSURE") {
+        p.count("bp_not_reached", 1);
+        return Ok(());
+    }
     let o = out.map_err(|e| format!("{label}: {e}"))?;
     p.evaluations += 1;
     p.distinct(&label);
@@ -750,27 +772,50 @@ pub fn run(ctx: &mut Ctx) -> (&'static str, String, bool) {
         }
     }
     // closure right after the last packets, before the client reads; writes under back-pressure
-    for rep in 0..if asan { 1 } else { ctx.tier.pick(2usize, 12usize) } {
-        for compressed in MODES {
-            for close in [Close::Frame, Close::Abrupt] {
-                for per in [1usize, 3, 50] {
-                    if let Err(e) = run_close_race(&c, &mut r, compressed, close, per, &mut p) {
-                        ctx.inconclusive(e);
+    {
+        use rayon::prelude::*;
+        #[derive(Clone, Copy)]
+        enum Job {
+            CloseRace(bool, Close, usize),
+            CancelledWrites(bool, usize),
+            Keepalive(bool, u64),
+            Writes(bool, usize),
+        }
+        let mut jobs: Vec<(Job, Rng)> = vec![];
+        for rep in 0..if asan { 1 } else { ctx.tier.pick(2usize, 12usize) } {
+            for compressed in MODES {
+                for close in [Close::Frame, Close::Abrupt] {
+                    for per in [1usize, 3, 50] {
+                        jobs.push((Job::CloseRace(compressed, close, per), r.fork(7000 + jobs.len() as u64)));
                     }
+                }
+                if rep == 0 {
+                    jobs.push((Job::CancelledWrites(compressed, if asan { 200 } else { ctx.tier.pick(700usize, 3000usize) }), r.fork(7000 + jobs.len() as u64)));
+                    for cancel_ms in [60u64, 400] {
+                        jobs.push((Job::Keepalive(compressed, cancel_ms), r.fork(7000 + jobs.len() as u64)));
+                    }
+                    jobs.push((Job::Writes(compressed, if asan { 1500 } else { ctx.tier.pick(4000usize, 12000usize) }), r.fork(7000 + jobs.len() as u64)));
                 }
             }
-            if rep == 0 {
-                if let Err(e) = run_backpressure_cancelled_writes(compressed, if asan { 200 } else { ctx.tier.pick(700usize, 3000usize) }, &mut p) {
-                    ctx.inconclusive(e);
-                }
-                for cancel_ms in [60u64, 400] {
-                    if let Err(e) = run_backpressure_keepalive(compressed, cancel_ms, &mut p) {
-                        ctx.inconclusive(e);
-                    }
-                }
-                if let Err(e) = run_backpressure_writes(&c, &mut r, compressed, if asan { 1500 } else { ctx.tier.pick(4000usize, 12000usize) }, &mut p, "C20") {
-                    ctx.inconclusive(e);
-                }
+        }
+        let cref = &c;
+        let parts: Vec<(Part, Result<(), String>)> = jobs
+            .into_par_iter()
+            .map(|(job, mut r)| {
+                let mut p = Part::new();
+                let res = match job {
+                    Job::CloseRace(compressed, close, per) => run_close_race(cref, &mut r, compressed, close, per, &mut p),
+                    Job::CancelledWrites(compressed, n) => run_backpressure_cancelled_writes(compressed, n, &mut p),
+                    Job::Keepalive(compressed, ms) => run_backpressure_keepalive(compressed, ms, &mut p),
+                    Job::Writes(compressed, n) => run_backpressure_writes(cref, &mut r, compressed, n, &mut p, "C20"),
+                };
+                (p, res)
+            })
+            .collect();
+        for (part, res) in parts {
+            p.merge(part);
+            if let Err(e) = res {
+                ctx.inconclusive(e);
             }
         }
     }
